@@ -11,6 +11,7 @@ import (
 	"encoding/binary"
 	"errors"
 	"fmt"
+	"io"
 	"net"
 	"reflect"
 	"runtime"
@@ -45,11 +46,21 @@ func (verifAddr) String() string  { return "verif" }
 type verifFakeConn struct {
 	mu     sync.Mutex
 	buf    []byte
+	rd     []byte // what Read serves before EOF
 	closed bool
 	seen   bool // closure already reported
 }
 
-func (f *verifFakeConn) Read(b []byte) (int, error) { return 0, errors.New("EOF") }
+func (f *verifFakeConn) Read(b []byte) (int, error) {
+	f.mu.Lock()
+	defer f.mu.Unlock()
+	if len(f.rd) == 0 {
+		return 0, io.EOF
+	}
+	n := copy(b, f.rd)
+	f.rd = f.rd[n:]
+	return n, nil
+}
 func (f *verifFakeConn) Write(b []byte) (int, error) {
 	f.mu.Lock()
 	defer f.mu.Unlock()
@@ -678,21 +689,61 @@ type verifAcqRes struct {
 
 func verifRunRM(size int64, buf int, ops []string) string {
 	logs := 0
+	results := make(chan verifAcqRes, 1024)
 	s := &Server{}
-	s.opts.Logf = func(format string, args ...any) { logs++ }
+	s.opts.Logf = func(format string, args ...any) {
+		if strings.HasPrefix(format, "rpc: waiting to acquire request memory") {
+			logs++
+		}
+	}
 	s.opts.DebugRPC = true // rareLog then logs every time: a log line = TryAcquire failed
 	s.opts.RequestBufSize = buf
 	s.reqMemSem = semaphore.NewWeighted(size)
+	// what the real receive loop needs besides the request semaphore ('k' ops run Server.receiveLoop on a hand-made
+	// serverConnTCP over an in-memory conn; MaxWorkers = 0: the handler runs on the receive goroutine)
+	s.respMemSem = semaphore.NewWeighted(1 << 40)
+	s.opts.ResponseBufSize, s.opts.ResponseMemEstimate = 512, 512
+	s.opts.DisableSpecialHandlers = true
+	s.hctxPool.New = func() any { return &HandlerContext{} }
+	s.reqBufPool.New = func() any { var b []byte; return &b }
+	s.respBufPool.New = func() any { var b []byte; return &b }
+	hold := map[int64]chan struct{}{} // query id -> closed to let the handler return
+	conns := map[int]*serverConnTCP{}
+	loopDone := map[int]chan struct{}{}
+	var enteredMu sync.Mutex
+	entered := map[int64]bool{}
+	s.opts.Handler = func(ctx context.Context, hctx *HandlerContext) error {
+		enteredMu.Lock()
+		entered[hctx.queryID] = true
+		ch := hold[hctx.queryID]
+		enteredMu.Unlock()
+		results <- verifAcqRes{int(hctx.queryID), nil} // admitted: the request holds its memory while the handler runs
+		<-ch
+		hctx.Response = append(hctx.Response, 1, 2, 3, 4)
+		return nil
+	}
 	sem := VerifReqMemSem(s)
-	results := make(chan verifAcqRes, 1024)
 	cancels := map[int]context.CancelFunc{}
 	taken := map[int]int{}    // admitted, not released
 	queued := []int{}         // ids in queue order
 	queuedN := map[int]int{}  // their weights
 	spawned, returned := 0, 0
+	rmPanicked := false
 	defer func() {
 		for _, c := range cancels {
 			c()
+		}
+		enteredMu.Lock()
+		for _, ch := range hold {
+			select {
+			case <-ch:
+			default:
+				close(ch)
+			}
+		}
+		enteredMu.Unlock()
+		for _, sc := range conns {
+			sc.close(nil)
 		}
 	}()
 	quiesce := func() []verifAcqRes {
@@ -704,9 +755,15 @@ func verifRunRM(size int64, buf int, ops []string) string {
 				case r := <-results:
 					res = append(res, r)
 					returned++
+					if r.err != nil && r.err.Error() == "PANIC" {
+						rmPanicked = true
+					}
 				default:
 					drained = true
 				}
+			}
+			if rmPanicked {
+				return res
 			}
 			if returned+len(semaphore.VerifRpccallsWaiters(sem)) == spawned && len(results) == 0 {
 				return res
@@ -757,7 +814,8 @@ func verifRunRM(size int64, buf int, ops []string) string {
 		var evs []string
 		bad := false
 		switch {
-		case strings.HasPrefix(op, "a"):
+		case strings.HasPrefix(op, "a") || strings.HasPrefix(op, "k"):
+			isK := op[0] == 'k'
 			f := strings.Split(op[1:], ":")
 			if len(f) != 2 {
 				bad = true
@@ -769,18 +827,72 @@ func verifRunRM(size int64, buf int, ops []string) string {
 				bad = true
 				break
 			}
-			take := s.requestBufTake(body)
-			ctx, cancel := context.WithCancel(context.Background())
-			cancels[id] = cancel
-			if int64(take) > size {
-				cancel() // Acquire would wait for the context only: show that it is not admitted
+			if isK && (body%4 != 0 || body < 12 || body > 1<<20) {
+				bad = true
+				break
 			}
+			take := s.requestBufTake(body)
 			logs0 := logs
 			spawned++
-			go func() {
-				err := s.acquireRequestSema(ctx, take)
-				results <- verifAcqRes{id, err}
-			}()
+			if isK {
+				// the request arrives as a packet on its own connection; the real receive loop accounts for it
+				take = s.requestBufTake(body + packetOverhead)
+				wr := &verifFakeConn{}
+				wpc := NewPacketConn(wr, 4096, 4096)
+				wpc.writeSeqNum = 0 // as after the handshake
+				pb := make([]byte, body)
+				binary.LittleEndian.PutUint64(pb, uint64(id))
+				binary.LittleEndian.PutUint32(pb[8:], 0x7e57ca11)
+				if err := wpc.WritePacket(tl.RpcInvokeReqHeader{}.TLTag(), pb, 0); err != nil {
+					bad = true
+					break
+				}
+				closeCtx, cancelCause := context.WithCancelCause(context.Background())
+				sc := &serverConnTCP{
+					serverConnCommon: serverConnCommon{server: s, closeCtx: closeCtx, cancelCloseCtx: cancelCause, longpolls: map[int64]longpollHctx{}},
+					listenAddr:       verifAddr{},
+					conn:             NewPacketConn(&verifFakeConn{rd: wr.buf}, 4096, 4096),
+				}
+				sc.conn.readSeqNum = 0
+				sc.writeQCond.L = &sc.mu
+				sc.closeWaitCond.L = &sc.mu
+				conns[id] = sc
+				cancels[id] = func() { sc.close(errors.New("verif: peer went away")) }
+				enteredMu.Lock()
+				hold[int64(id)] = make(chan struct{})
+				enteredMu.Unlock()
+				done := make(chan struct{})
+				loopDone[id] = done
+				if int64(take) > size {
+					cancels[id]() // Acquire would wait for the close context only
+				}
+				go func() {
+					defer close(done)
+					defer func() {
+						if r := recover(); r != nil {
+							results <- verifAcqRes{id, errors.New("PANIC")}
+						}
+					}()
+					readErrCC := make(chan error, 1)
+					s.receiveLoop(sc, readErrCC)
+					enteredMu.Lock()
+					ent := entered[int64(id)]
+					enteredMu.Unlock()
+					if !ent {
+						results <- verifAcqRes{id, errors.New("closed while waiting for request memory")}
+					}
+				}()
+			} else {
+				ctx, cancel := context.WithCancel(context.Background())
+				cancels[id] = cancel
+				if int64(take) > size {
+					cancel() // Acquire would wait for the context only: show that it is not admitted
+				}
+				go func() {
+					err := s.acquireRequestSema(ctx, take)
+					results <- verifAcqRes{id, err}
+				}()
+			}
 			res := quiesce()
 			self := -1
 			var selfErr error
@@ -813,7 +925,14 @@ func verifRunRM(size int64, buf int, ops []string) string {
 			}
 			if n, ok := taken[id]; ok {
 				delete(taken, id)
-				s.releaseRequestBuf(n, nil)
+				if done, isK := loopDone[id]; isK {
+					enteredMu.Lock()
+					close(hold[int64(id)]) // the handler returns; SendResponse releases the request memory
+					enteredMu.Unlock()
+					<-done
+				} else {
+					s.releaseRequestBuf(n, nil)
+				}
 				evs = append(evs, fmt.Sprintf("r%d", id))
 				evs = append(evs, others(quiesce(), -1)...)
 			}
@@ -837,6 +956,12 @@ func verifRunRM(size int64, buf int, ops []string) string {
 					returned++
 					res = append(res, r)
 					seen = r.id == id
+					if r.err != nil && r.err.Error() == "PANIC" {
+						rmPanicked = true
+					}
+				}
+				if done, isK := loopDone[id]; isK {
+					<-done // the receive loop has released the handler context of the request that never got memory
 				}
 				res = append(res, quiesce()...)
 				var first, rest []string
@@ -854,6 +979,10 @@ func verifRunRM(size int64, buf int, ops []string) string {
 		}
 		if bad {
 			out = append(out, "bad")
+			break
+		}
+		if rmPanicked {
+			out = append(out, "panic")
 			break
 		}
 		out = append(out, strings.Join(evs, ",")+"#"+state())
